@@ -153,8 +153,29 @@ pub fn run_c16(seed: u64, n: usize, out: &mut Out) {
         if r.pct(30) {
             lines.push(format!("@@||{}^$generichide", r.pick(HOSTS)));
         }
+        if r.pct(35) {
+            // scoped generichide exceptions: the page is a first-party document request initiated by itself
+            let h = r.pick(HOSTS);
+            lines.push(match r.below(8) {
+                0 => format!("@@*$ghide,domain={}", h),
+                1 => format!("@@||{}^$generichide,domain={}", h, h),
+                2 => format!("@@||{}^$generichide,1p", h),
+                3 => format!("@@||{}^$generichide,3p", h),
+                4 => format!("@@*$generichide,domain=~{}", h),
+                5 => format!("@@|https://{}/p|$generichide", h),
+                6 => format!("@@||{}^$generichide,domain={}|~sub.{}", h, h, h),
+                _ => format!("@@/p$ghide,first-party,domain={}", h),
+            });
+            if r.pct(15) {
+                let l = lines.last().unwrap().clone();
+                lines.push(format!("{},badfilter", l));
+            }
+        }
         let mut e = Engine::from_rules_parametrised(&lines, Default::default(), true, true);
         e.use_resources(resources.clone());
+        let mut ghide_rules = parse_all(&lines);
+        ghide_rules.retain(|p| p.has(adblock::filters::network::NetworkFilterMask::GENERIC_HIDE));
+        let bad_ids: HashSet<u64> = parse_all(&lines).iter().filter(|p| p.has(adblock::filters::network::NetworkFilterMask::BAD_FILTER)).map(|p| p.f.get_id_without_badfilter()).collect();
         let crules: Vec<CosmeticFilter> = lines.iter().filter_map(|l| parse_cosm(l)).collect();
         for f in &crules {
             if let Some(what) = generic_rule_defect(f) {
@@ -198,6 +219,20 @@ pub fn run_c16(seed: u64, n: usize, out: &mut Out) {
                     continue;
                 }
             };
+            // generichide, rule by rule: some live $generichide exception matches the page as a document
+            // request initiated by the page itself
+            if let Ok(doc) = adblock::request::Request::new(&url, &url, "document") {
+                let mut expect = false;
+                for pr in ghide_rules.iter_mut() {
+                    if !bad_ids.contains(&pr.f.get_id()) && !pr.has(adblock::filters::network::NetworkFilterMask::BAD_FILTER) && pr.matches(&doc) {
+                        expect = true;
+                    }
+                }
+                if expect != res.generichide {
+                    out.fail("generichide-flag-differs-from-rule-by-rule", None, json!({"rules": lines, "url": url, "generichide": res.generichide, "rule_by_rule": expect}));
+                }
+                out.bump(if expect { "generichide_expected" } else { "generichide_not_expected" });
+            }
             let (ds, de) = adblock::url_parser::verif_get_host_domain(&host);
             let domain = &host[ds..de];
             // surviving injections, recovered from the emitted calls
@@ -232,7 +267,7 @@ pub fn run_c16(seed: u64, n: usize, out: &mut Out) {
 pub fn run_c17(seed: u64, n: usize, out: &mut Out) {
     let mut r = Rng::new(seed);
     // (1) key extraction
-    let pieces = [".", "#", "a", "b", "-", "_", "\\", "\\:", "\\31 ", "\\41", " ", "\\ffffffffff ", "\\d800 ", "\\110000 ", "\\0 ", "[", ">", "1", "A", "\\\n", "\\ ", ":"];
+    let pieces = [".", "#", "a", "b", "-", "_", "\\", "\\:", "\\31 ", "\\41", " ", "\\ffffffffff ", "\\d800 ", "\\110000 ", "\\0 ", "[", ">", "1", "A", "\\\n", "\\ ", ":", "\\\u{e9}", "\\\u{5e83}", "\\\u{1f600}", "\u{e9}", "\u{5e83}\u{544a}", "\\\u{e9} ", "\\e9 "];
     for _ in 0..n {
         let k = 1 + r.below(6);
         let mut s = String::from(*r.pick(&[&".", &"#", &".", &"#", &"d"]));
@@ -251,7 +286,7 @@ pub fn run_c17(seed: u64, n: usize, out: &mut Out) {
         let nr = 1 + r.below(10);
         let mut lines: Vec<String> = vec![];
         for _ in 0..nr {
-            let s = if r.pct(15) { r.pick(&["#\u{43d}\u{435}\u{434}\u{435}\u{43b}\u{44f}", ".\u{440}\u{435}\u{43a}\u{43b}\u{430}\u{43c}\u{430}", ".ad-\u{431}\u{430}\u{43d}\u{43d}\u{435}\u{440}", "#pub-publicit\u{e9} > div", ".promo\\:st\u{f8}rre"]).to_string() } else { sel(&mut r) };
+            let s = if r.pct(15) { r.pick(&["#\u{43d}\u{435}\u{434}\u{435}\u{43b}\u{44f}", ".\u{440}\u{435}\u{43a}\u{43b}\u{430}\u{43c}\u{430}", ".ad-\u{431}\u{430}\u{43d}\u{43d}\u{435}\u{440}", "#pub-publicit\u{e9} > div", ".promo\\:st\u{f8}rre", ".caf\\\u{e9}-banner", ".caf\\\u{e9}-banner > .inner", "#\\\u{5e83}\u{544a}-top", ".x\\\u{1f600}y"]).to_string() } else { sel(&mut r) };
             lines.push(match r.below(8) {
                 0 => format!("~a.com##{}", s),  // only negated hosts: a hidden generic rule
                 1 => format!("a.com##{}", s),   // site specific: must not be reachable generically
